@@ -15,9 +15,9 @@ rundemo() {
   else g++ -std=c++14 -I$wt/au/code _scratch/demo.cc -o _scratch/demo.bin 2>_scratch/demo.err; rc=$?; if [ $rc -ne 0 ]; then echo "compile-fail"; else (timeout 600 _scratch/demo.bin >/dev/null 2>&1; echo $?); fi; fi
 }
 with=$(rundemo)
-git stash -q -- au
+git apply -R _scratch/patch.confirm.diff || { echo "cannot reverse patch"; exit 2; }
 without=$(rundemo)
-git stash pop -q
+git apply _scratch/patch.confirm.diff || { echo "cannot re-apply patch"; exit 2; }
 echo "demo with change: $with ; without: $without"
 ok=0
 case "$suite" in *"100% tests passed"*) ;; *) ok=1;; esac
